@@ -12,10 +12,10 @@ import scipy.sparse as sps
 from pmc import modspecs as ms
 
 PROPERTY = 'C03'
-RULE = ("stateless exploration of call histories on 15 networks (N1 filter+stiffness+sparse LinSolve, N2 block rhs, N3 "
+RULE = ("stateless exploration of call histories on 17 networks (N1 filter+stiffness+sparse LinSolve, N2 block rhs, N3 "
         "CG(SOR) with initial-guess memory, N4 sparse EigenSolve, N5 OverhangFilter+KS, N6 SystemOfEquations, N7 "
         "StaticCondensation, N8 complex dynamic stiffness + LinSolve + ComplexNorm, N9 bare dense LinSolve whose matrix "
-        "table holds different matrix classes, N10 the same with definite -> indefinite -> definite symmetric matrices, N11 CG with geometric multigrid, N12 sparse eigenvectors seeded one mode at a time, N13 block right-hand side whose seeds mix seen and new columns, N14 CG on a block of load cases of which one changes, N15 bare LinSolve whose matrix table changes the sparsity pattern); every protocol-respecting sequence over {I0,I1,I2,R,S0,S1,B,Z} up to the "
+        "table holds different matrix classes, N10 the same with definite -> indefinite -> definite symmetric matrices, N11 CG with geometric multigrid, N12 sparse eigenvectors seeded one mode at a time, N13 block right-hand side whose seeds mix seen and new columns, N14 CG on a block of load cases of which one changes, N15 bare LinSolve whose matrix table changes the sparsity pattern, N16 warm-started CG with loads of very different magnitude, N17 sparse eigenvectors of two almost decoupled chains); every protocol-respecting sequence over {I0,I1,I2,R,S0,S1,B,Z} up to the "
         "depth bound, each followed by clean cycles for all (k,j), j in {output 0, output 1, both outputs} (the first fresh after the sequence, rotating); on every "
         "intermediate state: after Z no sensitivity is left, B without a seed changes nothing, R,R equals R. Level 'reseeded-passes': "
         "every clean cycle followed by every cycle (k,j,j2[,j3]) = clean cycle (k,j) then reset+seed j2+sensitivity WITHOUT a new response, "
@@ -26,7 +26,7 @@ ASSUMPTIONS = ["documented memories (Scaling first value, damped AggScaling, wri
                "pymoto.core_objects.get_init_str (diagnostic only) replaced by a constant"]
 
 OPS = ['I0', 'I1', 'I2', 'R', 'S0', 'S1', 'B', 'Z']
-NETS = ['N1', 'N2', 'N3', 'N4', 'N5', 'N6', 'N7', 'N8', 'N9', 'N10', 'N11', 'N12', 'N13', 'N14', 'N15']
+NETS = ['N1', 'N2', 'N3', 'N4', 'N5', 'N6', 'N7', 'N8', 'N9', 'N10', 'N11', 'N12', 'N13', 'N14', 'N15', 'N16', 'N17']
 
 
 def _xs(nel, t):
@@ -184,6 +184,46 @@ def build(name, t=0):
         outs = [u, u]
         seeds = [np.array([1.0, 0.0, 0.0]), np.array([0.3, -0.7, 1.1])]
         x = A
+    elif name == 'N16':
+        # warm-started CG whose load changes MAGNITUDE by orders between the tables (the previous solution is a poor guess)
+        nd = dom.nnodes * 2
+        Ks = pym.Signal('K')
+        pym.AssembleStiffness(pym.Signal('xk', xs[0].copy()), Ks, domain=dom, bc=bc).response()
+        base = np.cos(0.9 + 1.3 * np.arange(nd))
+        base[bc] = 0
+        other = np.sin(0.2 + 0.6 * np.arange(nd))
+        other[bc] = 0
+        Fs = [1e6 * base, other, 1e-3 * (base + other)]
+        rhs = pym.Signal('f', Fs[0].copy())
+        net = pym.Network()
+        u = net.append(pym.LinSolve([Ks, rhs], solver=ps.CG(preconditioner=ps.SOR(), tol=1e-11)))
+        c = net.append(pym.EinSum([u, rhs], expression='i,i->'))
+        v = net.append(pym.EinSum([u, u], expression='i,i->'))
+        sources, tables = [rhs], [[F_] for F_ in Fs]
+        outs = [c, v]
+        x = rhs
+    elif name == 'N17':
+        # sparse eigenvectors of two almost decoupled chains; which chain carries the lowest mode changes with the input
+        import scipy.sparse as sps_
+
+        def chains(k1, k2):
+            T = 2 * np.eye(4) - np.eye(4, k=1) - np.eye(4, k=-1)
+            A_ = np.zeros((8, 8))
+            A_[:4, :4] = k1 * T
+            A_[4:, 4:] = k2 * T
+            A_[3, 4] = A_[4, 3] = -1e-9
+            return sps_.csc_matrix(A_)
+        mats = [chains(1.0, 3.0), chains(3.0, 1.0), chains(1.0, 5.0)]
+        A = pym.Signal('A', mats[0].copy())
+        net = pym.Network()
+        lam, Q = net.append(pym.EigenSolve([A], nmodes=2, hermitian=True))
+        sources, tables = [A], [[M_] for M_ in mats]
+        outs = [Q, Q]
+        g0, g1 = np.zeros((8, 2)), np.zeros((8, 2))
+        g0[:, 0] = np.cos(1.0 + np.arange(8))
+        g1[:, 1] = np.sin(0.5 + 0.7 * np.arange(8))
+        seeds = [g0, g1]
+        x = A
     elif name == 'N11':
         # CG with a geometric multigrid preconditioner (interpolation set up once, coarse solver chosen at the first update)
         dom = pym.DomainDefinition(4, 2)
@@ -324,7 +364,7 @@ def class_change(name, seq, cycles):
 
 def run_history(name, t, seq, cycles):
     """returns (ops, violation tuple or None)"""
-    tol = 1e-6 if name in ('N3', 'N11', 'N14') else 1e-9
+    tol = 1e-6 if name in ('N3', 'N11', 'N14', 'N16') else 1e-9
     w = build(name, t)
     net = w['net']
     seeded = False
@@ -386,7 +426,7 @@ def run_history(name, t, seq, cycles):
                     return nops, ('state_differs_from_fresh', {'net': name, 'input_class_changed': changed},
                                   {'seq': seq, 'cycles': cycles[:c + 1], 'signal': w['sigs'][idx].tag, 'rel': d})
             for idx, (a, b) in enumerate(zip(gs, rgs)):
-                ok, d = close(a, b, tol * (1e3 if name in ('N3', 'N11', 'N14') else 1))
+                ok, d = close(a, b, tol * (1e3 if name in ('N3', 'N11', 'N14', 'N16') else 1))
                 if not ok:
                     return nops, ('sensitivity_differs_from_fresh', {'net': name, 'input_class_changed': changed},
                                   {'seq': seq, 'cycles': cycles[:c + 1], 'source': idx, 'rel': d})
@@ -406,7 +446,7 @@ def run_history(name, t, seq, cycles):
                         return nops, ('state_changed_by_sensitivity_pass', {'net': name},
                                       {'seq': seq, 'cycles': cycles[:c + 1], 'signal': w['sigs'][idx].tag, 'rel': d})
                 for idx, (a, b) in enumerate(zip(src_sens(w), ref2[1])):
-                    ok, d = close(a, b, tol * (1e3 if name in ('N3', 'N11', 'N14') else 1))
+                    ok, d = close(a, b, tol * (1e3 if name in ('N3', 'N11', 'N14', 'N16') else 1))
                     if not ok:
                         return nops, ('reseeded_pass_differs_from_fresh', {'net': name, 'input_class_changed': changed},
                                       {'seq': seq, 'cycles': cycles[:c + 1], 'pass': q + 2, 'source': idx, 'rel': d})
